@@ -471,7 +471,7 @@ func (c *caseJ) term(o *obs) string {
 	if o.seen != nil {
 		seen = "(Some " + obytes([]byte(*o.seen), large) + ")"
 	}
-	fin := fmt.Sprintf("{| f_contents := %s; f_size := %s; f_bodyvar := %s; f_seen := %s; f_dataerr := %s; f_phase := %s; f_spilled := %s; f_intr := %s |}",
+	fin := fmt.Sprintf("(Build_ofinal %s %s %s %s %s %s %s %s)",
 		obytes(o.contents, large), vh.Z(o.size), obytes([]byte(o.bodyvar), large), seen, coqBool(o.dataerr), vh.Z(int64(o.phase)), coqBool(o.spilled), vh.Z(int64(o.intr)))
 	return fmt.Sprintf("CT %s %s %s %s %s %s %s %s %s %s %s %s %s %s", dir, vh.Z(c.Limit), vh.Z(c.Mem), act,
 		coqBool(!c.NoAccess), coqBool(!c.EngineOff), bp, coqBool(!c.NotProcessable), coqBool(c.Deny), vh.Z(int64(c.Phase0)),
@@ -948,20 +948,45 @@ func Run(cfg vh.Config) (*vh.Result, error) {
 	res.OracleEvaluations = r.oracle
 	res.DistinctNontrivial = r.nontriv
 
-	per := 2500
-	for i, k := 0, 0; i < len(r.terms); i, k = i+per, k+1 {
-		j := i + per
-		if j > len(r.terms) {
-			j = len(r.terms)
+	// shards: small cases 2500 per shard; large-body cases 3 per shard (they cost seconds each)
+	var smallIdx, largeIdx []int
+	for i, c := range r.cases {
+		if cj, ok := c.(*caseJ); ok && cj.GenLen > 0 {
+			largeIdx = append(largeIdx, i)
+		} else {
+			smallIdx = append(smallIdx, i)
 		}
-		info, err := vh.WriteShard(cfg.OutDir, vh.Shard{
-			Name: fmt.Sprintf("C10_%d", k), Imports: "From Verif Require Import Base BodyBuffer TxBody CorrC10.\nOpen Scope Z_scope.",
-			CaseType: "CorrC10.case", MismatchF: "CorrC10.mismatches", Terms: r.terms[i:j], Cases: r.cases[i:j],
-		})
-		if err != nil {
-			return nil, err
+	}
+	k := 0
+	emit := func(idx []int, per int) error {
+		for i := 0; i < len(idx); i += per {
+			j := i + per
+			if j > len(idx) {
+				j = len(idx)
+			}
+			var ts []string
+			var cs []any
+			for _, x := range idx[i:j] {
+				ts = append(ts, r.terms[x])
+				cs = append(cs, r.cases[x])
+			}
+			info, err := vh.WriteShard(cfg.OutDir, vh.Shard{
+				Name: fmt.Sprintf("C10_%d", k), Imports: "From Verif Require Import Base BodyBuffer TxBody CorrC10.\nOpen Scope Z_scope.",
+				CaseType: "CorrC10.case", MismatchF: "CorrC10.mismatches", Terms: ts, Cases: cs,
+			})
+			if err != nil {
+				return err
+			}
+			res.Shards = append(res.Shards, info)
+			k++
 		}
-		res.Shards = append(res.Shards, info)
+		return nil
+	}
+	if err := emit(largeIdx, 3); err != nil {
+		return nil, err
+	}
+	if err := emit(smallIdx, cfg.Pick(1000, 4000)); err != nil {
+		return nil, err
 	}
 	for i := 0; i < len(r.cases) && len(res.Samples) < 6; i += 1 + len(r.cases)/6 {
 		res.Samples = append(res.Samples, r.cases[i])
@@ -985,47 +1010,58 @@ func generate(cfg vh.Config, rng *rand.Rand, r *runner) error {
 		}
 		return nil
 	}
-	// 1. exhaustive core grid, request direction
-	maxLimit := cfg.Pick(4, 5)
-	maxLen := cfg.Pick(5, 7)
-	for limit := 1; limit <= maxLimit; limit++ {
-		for mem := 1; mem <= limit; mem++ {
-			for _, act := range []string{"reject", "partial"} {
-				for n := 0; n <= maxLen; n++ {
-					for _, parts := range compositions(n) {
-						err := assign(parts, 0, nil, func(calls []callJ) error {
-							c := &caseJ{Kind: "tx", Dir: "req", Limit: int64(limit), Mem: int64(mem), Action: act, BodyHex: randBody(rng, n)}
-							decorate(rng, c, calls)
-							return r.runTx(c)
-						})
-						if err != nil {
-							return err
+	// sampled: one random mode assignment per composition
+	sample := func(parts []int) []callJ {
+		var calls []callJ
+		for _, n := range parts {
+			m := modes[rng.Intn(3)]
+			m.N = n
+			calls = append(calls, m)
+		}
+		return calls
+	}
+	grid := func(dir string, maxLimit, fullLen, sampledLen int) error {
+		for limit := 1; limit <= maxLimit; limit++ {
+			for mem := 1; mem <= limit; mem++ {
+				if dir == "resp" && mem != limit {
+					continue // the response buffer never spills: memory limit = limit
+				}
+				for _, act := range []string{"reject", "partial"} {
+					for n := 0; n <= sampledLen; n++ {
+						for _, parts := range compositions(n) {
+							mk := func(calls []callJ) error {
+								c := &caseJ{Kind: "tx", Dir: dir, Limit: int64(limit), Mem: int64(mem), Action: act, BodyHex: randBody(rng, n)}
+								decorate(rng, c, calls)
+								return r.runTx(c)
+							}
+							var err error
+							if n <= fullLen {
+								err = assign(parts, 0, nil, mk)
+							} else {
+								err = mk(sample(parts))
+							}
+							if err != nil {
+								return err
+							}
 						}
 					}
 				}
 			}
 		}
+		return nil
 	}
-	// 2. exhaustive core grid, response direction (no spill: memory limit = limit)
-	maxLenR := cfg.Pick(4, 6)
-	for limit := 1; limit <= maxLimit; limit++ {
-		for _, act := range []string{"reject", "partial"} {
-			for n := 0; n <= maxLenR; n++ {
-				for _, parts := range compositions(n) {
-					err := assign(parts, 0, nil, func(calls []callJ) error {
-						c := &caseJ{Kind: "tx", Dir: "resp", Limit: int64(limit), Mem: int64(limit), Action: act, BodyHex: randBody(rng, n)}
-						decorate(rng, c, calls)
-						return r.runTx(c)
-					})
-					if err != nil {
-						return err
-					}
-				}
-			}
-		}
+	// 1. exhaustive core grid, request direction: limit x memory limit x action x every composition of
+	//    every body length <= fullLen x every mode per chunk; lengths up to sampledLen with one random
+	//    mode assignment per composition
+	if err := grid("req", cfg.Pick(4, 5), cfg.Pick(4, 6), cfg.Pick(6, 8)); err != nil {
+		return err
+	}
+	// 2. the same for the response direction
+	if err := grid("resp", cfg.Pick(4, 5), cfg.Pick(3, 6), cfg.Pick(5, 8)); err != nil {
+		return err
 	}
 	// 3. random medium sequences, with ctl limit changes in a part of them
-	for i := 0; i < cfg.Pick(2500, 60000); i++ {
+	for i := 0; i < cfg.Pick(1200, 40000); i++ {
 		limit := int64(1 + rng.Intn(40))
 		if rng.Intn(4) == 0 {
 			limit = int64(1 + rng.Intn(300))
@@ -1071,7 +1107,7 @@ func generate(cfg vh.Config, rng *rand.Rand, r *runner) error {
 		}
 	}
 	// 4. bare BodyBuffer: exhaustive small grid (memory limit may exceed the limit here), with resets
-	maxB := cfg.Pick(5, 7)
+	maxB := cfg.Pick(4, 7)
 	for limit := 1; limit <= 4; limit++ {
 		for mem := 0; mem <= 5; mem++ {
 			for n := 0; n <= maxB; n++ {
@@ -1100,7 +1136,7 @@ func generate(cfg vh.Config, rng *rand.Rand, r *runner) error {
 		limit, mem int64
 	}
 	bigs := []big{{"req", 524288, 131072}, {"req", 262144, 131072}, {"req", 131072, 131072}, {"resp", 524288, 524288}}
-	for i := 0; i < cfg.Pick(8, 48); i++ {
+	for i := 0; i < cfg.Pick(6, 48); i++ {
 		b := bigs[i%len(bigs)]
 		act := []string{"reject", "partial"}[(i/len(bigs))%2]
 		// total size at a threshold +- 1, or random
